@@ -601,7 +601,7 @@ def c11_generate(tier, seed):
             cfgs.append(c11_cfg(r, N, r.randint(2, max(2, N)), nd, unify, mp, None, alpha, seeded,
                                 0 if s == 0 else r.randrange(10 ** 6), reps=1))
     # seeded random larger datasets
-    for n in range(400 if quick else 5000):
+    for n in range(400 if quick else 3200):
         N = r.randint(2, 14 if quick else 20)
         nd = r.choice([1, 2, 2, 3, 3])
         cfgs.append(c11_cfg(r, N, r.randint(2, 10), nd, r.random() < 0.7, r.choice([0.3, 0.5, 1.0, 1.0]), None,
@@ -609,7 +609,7 @@ def c11_generate(tier, seed):
                             r.choice([0, 1, r.randrange(10 ** 6), r.randrange(10 ** 6)]),
                             reps=r.choice([1, 1, 2]), nshapes=r.choice([2, 2, 3])))
     # configurations with a cutmix probability: a cutmix draw must refuse explicitly, everything else as usual
-    for n in range(120 if quick else 800):
+    for n in range(120 if quick else 500):
         N = r.randint(2, 8)
         mp, cp = r.choice([(0.5, 0.5), (0.3, 0.3), (0.6, 0.2), (None, 1.0), (None, 0.4), (0.8, 0.2)])
         unify = r.random() < 0.5 and mp is not None
